@@ -67,6 +67,7 @@ func __same[T any](a, b T) bool { panic("spec") }
 func __cases(x int, vals ...int) bool { return true }
 func __has[K comparable, V any](m map[K]V, k K) bool { _, ok := m[k]; return ok }
 func __disjoint[A any, B any](a []A, b []B) bool { return true }
+func __sorted[T any](s []T, less func(i, j int) bool) bool { panic("spec") }
 `
 
 func loadEngine(repo string, patterns []string, extraOverlay map[string][]byte) (*Engine, error) {
